@@ -228,7 +228,8 @@ where
     };
     let sched = Sched { strict_clock, st, started: false, rec: rec.clone(), diverged: diverged.clone() };
     let mut scfg = shuttle::Config::new();
-    scfg.stack_size = 2 << 20;
+    // room for the interpreter's own 4 MiB recursion budget
+    scfg.stack_size = 12 << 20;
     scfg.failure_persistence = shuttle::FailurePersistence::None;
     scfg.max_steps = shuttle::MaxSteps::FailAfter(max_steps);
     let runner = shuttle::Runner::new(sched, scfg);
